@@ -16,7 +16,9 @@ MANIFEST = {
                   "The specification's K[64] and H0[8] are proved to be the 32-bit fractions of the cube/square roots of the first "
                   "64/8 primes (integer inequalities), its padding length to be the smallest solution FIPS asks for, and it reproduces the "
                   "FIPS example digests and RFC 4231 cases 1-4,6,7 by kernel evaluation. The model is tied to the code by tables, rotation "
-                  "amounts, sizes and pad bytes regenerated from Sha256.cpp/HmacSha256.cpp on every run (proved equal to the "
+                  "amounts, sizes, pad bytes and the operators of verify's comparison loop (initial value, accumulation operator, per-byte "
+                  "difference operator, final test: interpreted by the model, with the obligation that they are 0, |, ^, == 0) regenerated "
+                  "from Sha256.cpp/HmacSha256.cpp on every run (proved equal to the "
                   "specification's) and by a differential run of the real Sha256/HmacSha256 (ASan/UBSan, exact-size buffers) against "
                   "the compiled Lean model, with the Lean specification judging every digest, tag and verdict the implementation returns.",
     "level_note": "Trusted: Lean kernel; my reading of FIPS 180-4 / RFC 2104 into Spec/Sha256.lean and Spec/Hmac.lean (cross-checked by the "
@@ -43,6 +45,7 @@ K_DEFAULT = [
     0x19a4c116, 0x1e376c08, 0x2748774c, 0x34b0bcb5, 0x391c0cb3, 0x4ed8aa4a, 0x5b9cca4f, 0x682e6ff3,
     0x748f82ee, 0x78a5636f, 0x84c87814, 0x8cc70208, 0x90befffa, 0xa4506ceb, 0xbef9a3f7, 0xc67178f2]
 H0_DEFAULT = [0x6a09e667, 0xbb67ae85, 0x3c6ef372, 0xa54ff53a, 0x510e527f, 0x9b05688c, 0x1f83d9ab, 0x5be0cd19]
+VERIFY_LOOP_DEFAULT = {"verifyAccInit": 0, "verifyAccOp": "|", "verifyDiffOp": "^", "verifyFinalCmp": "==", "verifyFinalConst": 0}
 SIGMA_DEFAULT = {"big_sigma0": (2, 13, 22), "big_sigma1": (6, 11, 25), "small_sigma0": (7, 18, 3), "small_sigma1": (17, 19, 10)}
 
 
@@ -150,6 +153,32 @@ def extract():
         body.append(f"def {name} : UInt32 × UInt32 × UInt32 := ({a}, {b}, {c})")
     body.append("")
     body.append(lean_consts(vals))
+    body.append("")
+    # the comparison loop of HmacSha256::verify: initial value, accumulation operator, per-byte difference operator,
+    # final comparison.  Strings, interpreted by Model/Hmac.lean (`accOp`, `diffOp`, `finalTest`).
+    vloop = dict(VERIFY_LOOP_DEFAULT)
+    m = re.search(r"std::uint8_t\s+diff\s*=\s*(0[xX][0-9a-fA-F]+|\d+)\s*;", hsrc)
+    if m:
+        vloop["verifyAccInit"] = int(m.group(1), 0)
+    else:
+        gaps.append("verify: `std::uint8_t diff = 0;` not found")
+    m = re.search(r"\bdiff\s*(\||\+|-|\^|&|\*|)=\s*static_cast<std::uint8_t>\s*\(\s*expected\s*\[\s*i\s*\]\s*(\^|\||&|\+|-)\s*"
+                  r"mac\s*\[\s*i\s*\]\s*\)\s*;", hsrc)
+    if m:
+        vloop["verifyAccOp"], vloop["verifyDiffOp"] = m.group(1), m.group(2)
+    else:
+        gaps.append("verify: accumulation statement `diff <op>= static_cast<std::uint8_t>(expected[i] <op> mac[i]);` not found")
+    m = re.search(r"return\s+diff\s*(==|!=|<=|>=|<|>)\s*(0[xX][0-9a-fA-F]+|\d+)\s*;", hsrc)
+    if m:
+        vloop["verifyFinalCmp"], vloop["verifyFinalConst"] = m.group(1), int(m.group(2), 0)
+    else:
+        gaps.append("verify: `return diff == 0;` not found")
+    body.append("/-- `HmacSha256::verify`: `std::uint8_t diff = <init>; for (...) diff <acc>= uint8(expected[i] <diff> mac[i]); return diff <cmp> <const>;` -/")
+    body.append(f"def verifyAccInit : Nat := {vloop['verifyAccInit']}")
+    body.append(f"def verifyAccOp : String := \"{vloop['verifyAccOp']}\"")
+    body.append(f"def verifyDiffOp : String := \"{vloop['verifyDiffOp']}\"")
+    body.append(f"def verifyFinalCmp : String := \"{vloop['verifyFinalCmp']}\"")
+    body.append(f"def verifyFinalConst : Nat := {vloop['verifyFinalConst']}")
     write_generated(PID, "\n".join(body))
     return gaps
 
@@ -253,9 +282,90 @@ def case_verify(rng, thorough: bool) -> Case:
         t[b // 8] ^= 1 << (b % 8)
         ops.append(f"verify {hx(key)} {hx(data)} {hx(bytes(t))}")
     ops.append(f"verify {hx(key)} {hx(data)} {hx(rbytes(rng, 32))}")
-    other = pyhmac.new(key + b"x", data, hashlib.sha256).digest()
-    ops.append(f"verify {hx(key)} {hx(data)} {hx(other)}")
+    for t in forged_tags(rng, key, data, tag, thorough):
+        ops.append(f"verify {hx(key)} {hx(data)} {hx(t)}")
     return Case(ops=ops, tag="verify")
+
+
+def xor_at(tag: bytes, diffs: dict) -> bytes:
+    t = bytearray(tag)
+    for i, d in diffs.items():
+        t[i] ^= d & 0xFF
+    return bytes(t)
+
+
+def forged_tags(rng, key: bytes, data: bytes, tag: bytes, thorough: bool) -> list[bytes]:
+    """32-byte wrong tags built against comparison loops that are not `diff |= e ^ m; diff == 0`:
+    accumulators that add / subtract / xor / and / overwrite, loops that skip a prefix or a suffix,
+    comparisons that ignore order.  Every one of them differs from `tag` (asserted)."""
+    out: list[bytes] = []
+    pos = lambda k: rng.sample(range(32), k)
+    # XOR differences whose *sum* is 0 mod 256 (`+=`, `-=` accumulators)
+    for _ in range(4 if not thorough else 12):
+        i, j = pos(2)
+        out.append(xor_at(tag, {i: 0x80, j: 0x80}))
+        d = rng.randint(1, 255)
+        out.append(xor_at(tag, {i: d, j: 256 - d}))
+        a, b, c, e = pos(4)
+        out.append(xor_at(tag, {a: 0x40, b: 0x40, c: 0x40, e: 0x40}))
+        out.append(xor_at(tag, {a: 0xFF, b: 0x01}))
+        d1, d2 = rng.randint(1, 255), rng.randint(1, 255)
+        d3 = (-(d1 + d2)) % 256
+        if d3:
+            out.append(xor_at(tag, {a: d1, b: d2, c: d3}))
+    out.append(xor_at(tag, {0: 0x80, 31: 0x80}))
+    out.append(xor_at(tag, {0: 0x80, 1: 0x80}))
+    out.append(xor_at(tag, {i: 0x08 for i in range(32)}))            # 32 * 8   = 256
+    out.append(xor_at(tag, {i: 0x80 for i in range(32)}))            # 32 * 128 = 4096
+    out.append(xor_at(tag, {i: 0x10 for i in range(0, 32, 2)}))      # 16 * 16  = 256
+    out.append(xor_at(tag, {i: 0x20 for i in pos(8)}))               # 8 * 32   = 256
+    # XOR differences that *xor* to 0 (`^=` accumulator): the same difference in an even number of bytes
+    for _ in range(3 if not thorough else 8):
+        i, j = pos(2)
+        d = rng.randint(1, 255)
+        out.append(xor_at(tag, {i: d, j: d}))
+        a, b, c, e = pos(4)
+        d1, d2, d3 = rng.randint(1, 255), rng.randint(1, 255), rng.randint(1, 255)
+        if d1 ^ d2 ^ d3:
+            out.append(xor_at(tag, {a: d1, b: d2, c: d3, e: d1 ^ d2 ^ d3}))
+    # arithmetic differences summing to 0 (`diff += e - m`): +1 here, -1 there; all bytes +1 / -1
+    for _ in range(3):
+        i, j = pos(2)
+        t = bytearray(tag)
+        t[i] = (t[i] + 1) & 0xFF
+        t[j] = (t[j] - 1) & 0xFF
+        out.append(bytes(t))
+    out.append(bytes((b + 1) & 0xFF for b in tag))
+    out.append(bytes((b - 1) & 0xFF for b in tag))
+    out.append(bytes(b ^ 0xFF for b in tag))
+    # same multiset of bytes: swaps, rotation, reversal (order-insensitive comparisons, sums of bytes)
+    for _ in range(3):
+        i, j = pos(2)
+        t = bytearray(tag)
+        t[i], t[j] = t[j], t[i]
+        out.append(bytes(t))
+    out.append(tag[1:] + tag[:1])
+    out.append(tag[-1:] + tag[:-1])
+    out.append(tag[::-1])
+    out.append(tag[16:] + tag[:16])
+    # equal in the first / last k bytes only (loops that stop early, start late, or overwrite `diff`)
+    for k in ([1, 8, 16, 24, 31] if not thorough else range(1, 32)):
+        rest = bytes(b ^ rng.randint(1, 255) for b in tag[k:])
+        out.append(tag[:k] + rest)
+        rest = bytes(b ^ rng.randint(1, 255) for b in tag[:32 - k])
+        out.append(rest + tag[32 - k:])
+    out.append(xor_at(tag, {i: rng.randint(1, 255) for i in range(1, 31)}))   # only the two end bytes agree
+    # the correct tag of something else
+    out.append(pyhmac.new(key + b"x", data, hashlib.sha256).digest())
+    out.append(pyhmac.new(key, data + b"x", hashlib.sha256).digest())
+    out.append(pyhmac.new(key[:-1], data, hashlib.sha256).digest() if key else pyhmac.new(b"\0", data, hashlib.sha256).digest())
+    out.append(pyhmac.new(data, key, hashlib.sha256).digest())
+    out.append(hashlib.sha256(key + data).digest())
+    out.append(bytes(32))
+    out.append(b"\xff" * 32)
+    out = [t for t in out if t != tag]          # (a swap of two equal bytes, key == data, … give the tag itself)
+    assert all(len(t) == 32 for t in out)
+    return out
 
 
 def case_vectors() -> list[Case]:
@@ -350,7 +460,10 @@ def spec() -> Spec:
              "included), at every 64-byte boundary, at a shifted 64-stride and byte by byte; every single cut point of messages of "
              "length 55/56/57/63/64/65/119/120/121/127/128/129; 64 KiB..1 MiB pattern messages with random cuts; hmac: every key "
              "length 0..200 (incl. 63/64/65) x three data lengths, longer keys at random; verify: the correct tag, its prefixes and "
-             "extensions at every length 0..40, single-bit flips, a random tag, the tag of another key; FIPS/RFC 4231 vectors as ops. "
+             "extensions at every length 0..40, single-bit flips, a random tag, and forged 32-byte tags aimed at comparison loops that are "
+             "not an OR of XOR differences: byte differences summing to 0 mod 256 (2x0x80, 4x0x40, 0xff+0x01, d+(256-d), triples, 32x0x08, "
+             "16x0x10, 8x0x20), xor-ing to 0, +1/-1 pairs, all bytes +1/-1/complemented, byte swaps, rotations, reversal, tags equal to the "
+             "correct one in only the first/last k bytes, the correct tags of another key / message / swapped arguments; FIPS/RFC 4231 vectors as ops. "
              "distinct = sha256 of the op list; non-trivial = the implementation answered every op with a well-formed digest/tag/bool "
              "(verify cases: at least one accept and one refusal)",
         trusted_base=["reading of FIPS 180-4 and RFC 2104 into Spec/Sha256.lean and Spec/Hmac.lean (supported by proved example vectors and constant characterisations)",
